@@ -211,7 +211,7 @@ func rangesBulk(c *lib.Ctx, family string, n int, ord string) (evals int) {
 			}
 			probeAll()
 			ins(3*(n/4)+1, 3*(n/2)-1) // ends in gaps
-			ins(3*(n/2), 3*(n/2+n/8))  // ends on points
+			ins(3*(n/2), 3*(n/2+n/8)) // ends on points
 			probeAll()
 			for _, i := range idx {
 				if i%5 == 0 {
